@@ -82,6 +82,7 @@ fn replay(rec: &Value) -> (String, Report) {
         "C01" | "C02" => c01::replay(&cmd, &case),
         "C03" => c03::replay(&case),
         "C04" => c04::replay_c04(&case),
+        "C04-first-call" => c04::replay_first_call(&case),
         "C05" => c04::replay_c05(&case),
         "C06" => c04::replay_c06(&case),
         "C07" => c04::replay_c07(&case),
@@ -126,6 +127,11 @@ fn main() {
         let (rule, assumptions) = rule_and_assumptions(&prop);
         let j = r.to_json(&prop, rule, &assumptions);
         std::fs::write(&args[3], serde_json::to_vec(&j).unwrap()).expect("write result");
+    } else if args.len() >= 3 && args[1] == "first-call" {
+        // a fresh process whose VERY FIRST library call is the open described by the C04Case in argv[2] (lazy initialisation
+        // paths differ from the steady state): prints the outcome class and brief text
+        let out = c04::first_call(&args[2]);
+        println!("{}", out);
     } else {
         eprintln!("usage: vh run <PROP> <tier> <seed> <out.json> | vh replay <replay.json> <out.json>");
         std::process::exit(2);
